@@ -20,9 +20,10 @@ RULE = ("one run = one generated document, 1-3 (line, clone) pairs of any record
 PROBES = ["connected_original", "standalone_original", "edit_clone", "edit_original", "inplace_list",
           "inplace_cigar", "inplace_oriented", "inplace_json", "inplace_numarray", "header_clone",
           "edit_applied", "inplace_lastpos", "header_clone_merged",
-          "clone_of_complement", "clone_of_line_with_line_objects"]
+          "clone_of_complement", "clone_of_line_with_line_objects", "inplace_fieldarray_element"]
 EDITS = ["set_tag", "del_tag", "set_pos", "list_append", "list_pop", "cigar_op", "oriented", "json_inplace",
-         "numarray_append", "fieldarray_append", "set_datatype", "trace_inplace", "list_item_inplace", "lastpos_inplace"]
+         "numarray_append", "fieldarray_append", "set_datatype", "trace_inplace", "list_item_inplace", "lastpos_inplace",
+         "fieldarray_elem_inplace"]
 
 
 def gen(streams, tier, i):
@@ -225,6 +226,24 @@ def apply_edit(line, op, st, connected):
     if e == "fieldarray_append" and fas:
         f, x = fas[j % len(fas)]
         return core.call(x.append, x._data[0] if len(x._data) else 1), "append to field array %s" % f
+    if e == "fieldarray_elem_inplace" and fas:
+        f, x = fas[j % len(fas)]
+        elems = [y for y in x._data if isinstance(y, (list, dict))]
+        if elems:
+            y = elems[j % len(elems)]
+            st.count("probe.inplace_fieldarray_element")
+
+            def h2():
+                if isinstance(y, dict):
+                    y["injected"] = 1
+                    for kk in list(y):
+                        if isinstance(y[kk], list):
+                            y[kk].append(9)
+                else:
+                    y.append(7)
+                    if y and isinstance(y[0], list):
+                        y[0].append(8)
+            return core.call(h2), "in-place edit of a value of the repeated tag %s" % f
     if e == "lastpos_inplace":
         lp = [(f, x) for f, x in mv if isinstance(x, gfapy.LastPos)]
         if lp:
@@ -262,6 +281,9 @@ def run(scn, st):
                 # give the header a repeated tag so that it holds a FieldArray
                 core.call(g.add_line, "H\tzq:i:1")
                 core.call(g.add_line, "H\tzq:i:2")
+                # ... and repeated tags whose values are themselves mutable (JSON, numeric arrays)
+                core.call(g.add_line, "H\tzj:J:[1, [2]]\tzb:B:c,1,2")
+                core.call(g.add_line, "H\tzj:J:{\"a\": [3]}\tzb:B:c,5")
                 orig = g.header
                 st.count("probe.header_clone")
                 connected = True
